@@ -289,7 +289,58 @@ class Pvf(Cont):
         return out
 
 
-CONTS = [Htk(), Wve(), Mpc2k(), Pvf()]
+class Mat4(Cont):
+    name, major = "mat4", 0x0C
+    rates = [1, 2, 3, 8000, 11025, 44100, 65535, 65536, 2 ** 24 + 1, 2 ** 30, 2 ** 31 - 1]
+    TYPES = {0x07: 0, 0x06: 1, 0x04: 2, 0x02: 3}
+
+    def little(self, f):
+        return f.endian != FM.BE
+
+    def word(self, f):
+        return (0x10000000 if self.little(f) else 0x20000000) | (self.major << 16) | f.codec
+
+    def size_problems(self, j, b, frames):
+        out = []
+        e = "<" if self.little(j.f) else ">"
+        if len(b) < 68:
+            return ["file shorter than the 68-byte header"]
+        t1, r1, c1, i1, n1 = struct.unpack(e + "iiiiI", b[:20])
+        rate = struct.unpack(e + "d", b[31:39])[0]
+        t2, r2, c2, i2, n2 = struct.unpack(e + "iiiiI", b[39:59])
+        base = 0 if self.little(j.f) else 1000
+        if (t1, r1, c1, i1, n1, b[20:31]) != (base, 1, 1, 0, 11, b"samplerate\0") or rate != float(j.sr):
+            out.append("samplerate matrix: type %d %dx%d imag %d name %r value %r" % (t1, r1, c1, i1, b[20:31], rate))
+        if (t2, r2, i2, n2, b[59:68]) != (base + 10 * self.TYPES[j.f.codec], j.ch, 0, 9, b"wavedata\0"):
+            out.append("wavedata matrix: type %d rows %d imag %d name %r" % (t2, r2, i2, b[59:68]))
+        if c2 != frames or (len(b) - 68) != r2 * c2 * BYTEWIDTH[j.f.codec]:
+            out.append("cols field %d, file holds %d bytes of audio = %d frames reported" % (c2, len(b) - 68, frames))
+        return out
+
+    def hdr_len(self, b):
+        return 68
+
+    def mutants(self, b, rng):
+        out = []
+        le = b[:4] == bytes(4)
+        e = "<" if le else ">"
+        for off, name in ((4, "rows1"), (8, "cols1"), (12, "imag1"), (43, "rows2"), (47, "cols2"), (51, "imag2")):
+            for v in (0, 1, 2, 3, 1024, 1025, 0x7FFFFFFF, 0x80000000, 0xFFFFFFFF, 0xFFFFFFFE):
+                out.append(("%s=%d" % (name, v), b[:off] + struct.pack(e + "I", v) + b[off + 4:]))
+        for v in (0, 1, 10, 12, 63, 64, 65, 0xFFFFFFFF):
+            out.append(("ns1=%d" % v, b[:16] + struct.pack(e + "I", v) + b[20:]))
+            out.append(("ns2=%d" % v, b[:55] + struct.pack(e + "I", v) + b[59:]))
+        for v in (0.0, 1.0, 0.5, 1.5, 2.5, 44100.25, -8000.0, 2147483647.0, 2147483648.0, 1e300, float("inf"), float("nan"), 5e-324):
+            out.append(("rate=%r" % v, b[:31] + struct.pack(e + "d", v) + b[39:]))
+        for t in (0, 10, 20, 30, 40, 50, 1000, 1010, 1020, 1030, 1050):
+            out.append(("type2=%d" % t, b[:39] + struct.pack(e + "I", t) + b[43:]))
+            out.append(("type2x=%d" % t, b[:39] + struct.pack(("<" if e == ">" else ">") + "I", t) + b[43:]))
+        out.append(("name1", b[:16] + struct.pack(e + "I", 3) + b"sr\0" + b[31:]))
+        out.append(("name2", b[:55] + struct.pack(e + "I", 2) + b"x\0" + b[68:]))
+        return out
+
+
+CONTS = [Htk(), Wve(), Mpc2k(), Pvf(), Mat4()]
 
 
 # ---------------------------------------------------------------- sessions
